@@ -40,7 +40,9 @@ def namesOk (t : Table Bytes) : Bool :=
   t.all (fun r => !t.any (fun r' => r'.id != r.id && r'.key == r.key && r'.val == r.val))
 
 def entitiesOk (d : Db) : Bool :=
-  d.pe.all (fun e => plExists d e.key && e.val.uuid == 0 && d.tracks.contains e.val.track && 0 < e.val.track) &&
+  -- every entry sits in an existing playlist and has a positive track id; an entry of the library's own
+  -- database (uuid tag 0) refers to an existing track (tracks of other databases cannot be checked here)
+  d.pe.all (fun e => plExists d e.key && decide (0 < e.val.track) && (e.val.uuid != 0 || d.tracks.contains e.val.track)) &&
   d.pe.all (fun e => !d.pe.any (fun e' => e'.id != e.id && e'.key == e.key && e'.val == e.val))
 
 def tracksOk (d : Db) : Bool := nodupB d.tracks && d.tracks.all (fun i => 0 < i && i ≤ d.trSeq)
@@ -56,7 +58,7 @@ def checks (d : Db) : List (String × Bool) :=
   chainChecks d ++
   [("a Playlist row has a parent that does not exist, or the parent relation has a cycle", forestOk d.pl),
    ("a Playlist title is invalid or repeated among siblings", namesOk d.pl),
-   ("a PlaylistEntity row refers to a missing playlist, a foreign database or a missing track, or repeats a membership", entitiesOk d),
+   ("a PlaylistEntity row refers to a missing playlist or (own database) a missing track, or repeats a membership", entitiesOk d),
    ("Track ids are not unique, not positive or beyond the AUTOINCREMENT counter", tracksOk d)]
 
 def wfChains (d : Db) : Bool := (chainChecks d).all (·.2)
